@@ -39,7 +39,10 @@ def gen(rng, tier):
     cfg = {'mode': mode, 'style': rng.choice(['func', 'func', 'class']),
            'coroutine': rng.random() < 0.6,
            'handler_nss': rng.sample(NSS, rng.randrange(1, 4)),
-           'lat': rng.randrange(2)}
+           'lat': rng.randrange(2),
+           # thread world: free schedule between the application thread and
+           # the client's reader / handler threads
+           'policy': rng.choice(['fifo', 'fifo', 'random', 'pct'])}
     ops = []
     n = rng.randrange(2, 5)
     for _ in range(n):
@@ -89,7 +92,8 @@ def run(case):
     w = make_world(cfg['mode'], seed=case['seed'],
                    choices_replay=case.get('choices'),
                    lat=[(0.0,), (0.0, 0.001, 0.003)][cfg['lat']],
-                   policy='fifo')
+                   policy=cfg.get('policy', 'fifo'), pct_depth=2,
+                   pct_span=200)
     try:
         return _run(case, cfg, w)
     finally:
@@ -488,7 +492,13 @@ def _run(case, cfg, w):
                     ns = sorted(accepted)[0]
                     fr = ss.frames_for(sio.EVENT, ns, None,
                                        ['ev', b'a', b'b'])
-                    ss.send_frames(fr[:2])
+                    # one frame at a time: the client handles every message
+                    # in a thread of its own and relies on those threads
+                    # starting in order (they do); a free schedule would
+                    # otherwise let the attachment overtake its header
+                    ss.send_frames(fr[:1])
+                    w.settle()
+                    ss.send_frames(fr[1:2])
                     w.settle()
                     rec.count('fault.sever_in_binary')
                 elif k == 'sever_with_callbacks' and accepted:
